@@ -5,7 +5,7 @@ import io, json, os, random, copy
 import core, layout, store_common as sc
 
 ID = 'C16'
-GENMODS = ['gen_c16', 'gen_c10', 'gen_c18', 'gen_store']
+GENMODS = ['gen_c16', 'gen_c10', 'gen_c18', 'gen_store', 'gen_c11']
 TARGET = 'props/C16.vo'
 PROOF_FILES = ['proof/C16.v', 'proof/IniProofs.v', 'proof/IniFile.v', 'proof/C16Text.v', 'proof/IniFile2.v', 'proof/C14Label.v', 'proof/StoreText.v', 'props/C16.v']
 AXIOMS = []
@@ -322,6 +322,9 @@ def text_mutations(g, m):
     if m['target'] in ('LAMMPS', None): out.append(('lammps_one_row', t.replace('nr : 8', 'nr : 2')))
     if m['target'] == 'DL_POLY': out.append(('dlpoly_four_rows', t.replace('nr : 8', 'nr : 4')))
     out.append(('all_three_grid_options', t.replace('nr : 8', 'nr : 8\ndr : 0.5')))
+    # contradictory options whose DERIVED quantity is useless: a cutoff below half a step gives one row (checked after the derivation)
+    out.append(('cutoff_below_half_step', t.replace('nr : 8\ncutoff : 3.5', 'dr : 0.5\ncutoff : 0.125')))
+    if m['kind'] != 'pair': out.append(('cutoff_rho_below_half_step', t.replace('nrho : 4\ncutoff_rho : 3.0', 'drho : 0.5\ncutoff_rho : 0.125')))
     if m['kind'] != 'pair':
         out.append(('species_nonnumeric', t + '[Species]\n%s.atomic_mass : heavy\n' % m['els'][0]))
         out.append(('species_key_without_property', t + '[Species]\n%s : 12.0\n' % m['els'][0]))
@@ -493,7 +496,8 @@ def oracle(case):
         g = random.Random(len(r_model(m)))
         for name, text in text_mutations(g, m):
             r = run_text(text)
-            if r[0] == 'Numeric': continue
+            # numeric failures while evaluating a model's functions are not structural; a malformed GRID must never get that far
+            if r[0] == 'Numeric' and not name.startswith(('cutoff_', 'nr_', 'single_row', 'lammps_one_row', 'dlpoly_', 'all_three')): continue
             if r[0] != 'CfgErr': fails.append('%s: expected a configuration error, got %s %s' % (name, r[0], r[1] if r[0] != 'Ok' else '(a table was written)'))
     else:
         if got[0] != 'CfgErr': fails.append('%s: expected a configuration error, got %s %s' % (m.get('mutation'), got[0], got[1] if got[0] != 'Ok' else '(a table was written)'))
